@@ -314,8 +314,7 @@ func (m *Manager) AddBlocks(blocks []types.Block) error {
 }
 
 // AddValidatedV2Blocks ingests a chain of v2 blocks. The blocks must already be
-// validated, and the first block's parent must be known and itself validated
-// (applied, pre-validated or pruned; not merely stored by AddBlocks). If the chain has
+// validated, and the first block's parent must be known. If the chain has
 // sufficient work, it may become the new best chain, triggering a reorg.
 func (m *Manager) AddValidatedV2Blocks(blocks []types.Block, states []consensus.State) error {
 	m.mu.Lock()
@@ -327,12 +326,6 @@ func (m *Manager) AddValidatedV2Blocks(blocks []types.Block, states []consensus.
 	}
 	if _, ok := m.store.State(blocks[0].ParentID); !ok {
 		return fmt.Errorf("missing parent for block %v", blocks[0].ParentID)
-	} else if _, bs, ok := m.store.Block(blocks[0].ParentID); ok && bs == nil {
-		// the parent was stored by AddBlocks but never validated or applied:
-		// only its header-derived state is known. Blocks stored here are
-		// marked as validated, which later lets proof updates walk across
-		// them using the parent's state, so that state must be a real one.
-		return fmt.Errorf("parent %v of pre-validated blocks has not been validated", blocks[0].ParentID)
 	}
 	for i := range blocks {
 		if blocks[i].V2 == nil {
@@ -1308,6 +1301,16 @@ func (m *Manager) checkTxnSet(txns []types.Transaction, v2txns []types.V2Transac
 	return allInPool, nil
 }
 
+// hasRealState reports whether the stored state of a block is the result of
+// applying it (it was applied, delivered pre-validated, or applied and pruned
+// since) rather than derived from its header alone, as for a block that
+// AddBlocks stored without ever validating it. Pre-validated blocks may sit on
+// top of such a block until the whole branch is applied.
+func (m *Manager) hasRealState(id types.BlockID) bool {
+	_, bs, ok := m.store.Block(id)
+	return !ok || bs != nil
+}
+
 func (m *Manager) updateV2TransactionProofs(txns []types.V2Transaction, from, to types.ChainIndex) (updated []types.V2Transaction, err error) {
 	// first validate the transaction set against its claimed basis; attempting
 	// to update an invalid proof can cause a panic
@@ -1337,6 +1340,8 @@ func (m *Manager) updateV2TransactionProofs(txns []types.V2Transaction, from, to
 			return nil, fmt.Errorf("missing reverted block at index %v", index)
 		} else if bs == nil {
 			return nil, fmt.Errorf("missing reverted block supplement at index %v", index)
+		} else if !m.hasRealState(b.ParentID) {
+			return nil, fmt.Errorf("parent of reverted block at index %v was never validated", index)
 		} else if err := m.overwriteExpirations(b, bs); err != nil {
 			return nil, fmt.Errorf("failed to overwrite expirations for block %v: %w", index, err)
 		}
@@ -1354,6 +1359,8 @@ func (m *Manager) updateV2TransactionProofs(txns []types.V2Transaction, from, to
 			return nil, fmt.Errorf("missing applied block at index %v", index)
 		} else if bs == nil {
 			return nil, fmt.Errorf("missing applied block supplement at index %v", index)
+		} else if !m.hasRealState(b.ParentID) {
+			return nil, fmt.Errorf("parent of applied block at index %v was never validated", index)
 		} else if err := m.overwriteExpirations(b, bs); err != nil {
 			return nil, fmt.Errorf("failed to overwrite expirations for block %v: %w", index, err)
 		}
